@@ -135,61 +135,51 @@ class SubGrid(object):
         #
         # o - Node position.
 
-        # Determine position in the file of the sixteen surrounding nodes
-        pos1 = row * num_cols + col
-        pos2 = pos1 + 1
-        pos3 = pos2 + num_cols
-        pos4 = pos3 - 1
-        pos5 = pos4 - 2 * num_cols - 1
-        pos6 = pos5 + 1
-        pos7 = pos6 + 1
-        pos8 = pos7 + 1
-        pos9 = pos8 + num_cols
-        pos10 = pos9 + num_cols
-        pos11 = pos10 + num_cols
-        pos12 = pos11 - 1
-        pos13 = pos12 - 1
-        pos14 = pos13 - 1
-        pos15 = pos14 - num_cols
-        pos16 = pos15 - num_cols
+        # Number of rows in the sub-grid
+        num_rows = 1 + int((self.n_lat - self.s_lat) / self.lat_inc)
+        if num_rows < 3 or num_cols < 3:
+            raise ValueError('bicubic interpolation requires a sub-grid of at least 3 rows and 3 columns')
 
         # Navigate to start of subgrid
         f.seek(start_byte, 1)
-        # Navigate to start of pos1 node
-        f.seek(16 * pos5, 1)
+        grid_start = f.tell()
 
-        # Read in values for nodes 5-8
-        node_5 = read_node(f)
-        node_6 = read_node(f)
-        node_7 = read_node(f)
-        node_8 = read_node(f)
+        def node_at(r, c):
+            # Where the point of interest lies in the outermost ring of cells, part of the 4x4
+            # stencil falls outside the sub-grid. Those nodes are extrapolated from the three
+            # nearest nodes in the same column / row of this sub-grid rather than read from
+            # whatever precedes, follows or wraps around in the file.
+            if r < 0:
+                return extrapolate_node(node_at(r + 1, c), node_at(r + 2, c), node_at(r + 3, c))
+            if r > num_rows - 1:
+                return extrapolate_node(node_at(r - 1, c), node_at(r - 2, c), node_at(r - 3, c))
+            if c < 0:
+                return extrapolate_node(node_at(r, c + 1), node_at(r, c + 2), node_at(r, c + 3))
+            if c > num_cols - 1:
+                return extrapolate_node(node_at(r, c - 1), node_at(r, c - 2), node_at(r, c - 3))
+            f.seek(grid_start + 16 * (r * num_cols + c))
+            return read_node(f)
 
-        # Navigate to start of pos16 node
-        f.seek(16 * (pos16 - pos8 - 1), 1)
+        # Read in values for the sixteen surrounding nodes
+        node_5 = node_at(row - 1, col - 1)
+        node_6 = node_at(row - 1, col)
+        node_7 = node_at(row - 1, col + 1)
+        node_8 = node_at(row - 1, col + 2)
 
-        # Read in values for nodes 16, 1, 2, and 9
-        node_16 = read_node(f)
-        node_1 = read_node(f)
-        node_2 = read_node(f)
-        node_9 = read_node(f)
+        node_16 = node_at(row, col - 1)
+        node_1 = node_at(row, col)
+        node_2 = node_at(row, col + 1)
+        node_9 = node_at(row, col + 2)
 
-        # Navigate to start of pos15 node
-        f.seek(16 * (pos15 - pos9 - 1), 1)
+        node_15 = node_at(row + 1, col - 1)
+        node_4 = node_at(row + 1, col)
+        node_3 = node_at(row + 1, col + 1)
+        node_10 = node_at(row + 1, col + 2)
 
-        # Read in values for nodes 15, 3, 4 and 10
-        node_15 = read_node(f)
-        node_4 = read_node(f)
-        node_3 = read_node(f)
-        node_10 = read_node(f)
-
-        # Navigate to start of pos14 node
-        f.seek(16 * (pos14 - pos10 - 1), 1)
-
-        # Read in values for nodes 11, 12, 13 and 14
-        node_14 = read_node(f)
-        node_13 = read_node(f)
-        node_12 = read_node(f)
-        node_11 = read_node(f)
+        node_14 = node_at(row + 2, col - 1)
+        node_13 = node_at(row + 2, col)
+        node_12 = node_at(row + 2, col + 1)
+        node_11 = node_at(row + 2, col + 2)
 
         # Determine latitude and longitude of node 1
         lat1 = self.s_lat + row * self.lat_inc
@@ -246,6 +236,16 @@ def read_node(f):
     field_4 = struct.unpack('f', byte)[0]
 
     return field_1, field_2, field_3, field_4
+
+
+def extrapolate_node(n1, n2, n3):
+    """
+    Quadratic extrapolation of the four ntv2 fields one grid increment beyond node n1, from
+    three equally spaced nodes n1 (nearest), n2 and n3 (farthest).
+
+    :return: tuple containing the four extrapolated ntv2 fields.
+    """
+    return tuple(3 * a - 3 * b + c for a, b, c in zip(n1, n2, n3))
 
 
 def bilinear_interpolation(n1, n2, n3, n4, x, y):
